@@ -45,6 +45,7 @@ package tcc
 //@   may_panic
 //@   ensures result != nil && result.Xid == xid && result.BranchId == branchID && result.ActionName == resourceID
 //@   ensures only-from-decodable-data: len(applicationData) > 0 ==> called("Unmarshal#1") && callres("Unmarshal#1", 0) == nil
+//@   ensures_on_panic panics-only-on-data-it-cannot-decode: len(applicationData) > 0
 
 //@ func (*TCCServiceProxy).registeBranch
 //@   prop C05
